@@ -120,6 +120,12 @@ pub fn show_steps(steps: &[(T, T)]) -> String {
 pub struct RefRun { pub ok: bool, pub s: Subst, pub occurs: bool, pub ambiguous: bool }
 
 pub fn ref_unify(env: &UEnv, prior: &Subst, a: &T, b: &T) -> RefRun {
+    let vars: Vec<T> = env.vars.iter().map(|v| var(v)).collect();
+    ref_unify_on(&vars, prior, a, b)
+}
+
+/// Same, with the variables whose resolved values define "the result" given explicitly.
+pub fn ref_unify_on(vars: &[T], prior: &Subst, a: &T, b: &T) -> RefRun {
     let mut s = prior.clone();
     s.rtl = false; s.occurs_needed = false;
     let ok = s.unify(a, b);
@@ -129,8 +135,8 @@ pub fn ref_unify(env: &UEnv, prior: &Subst, a: &T, b: &T) -> RefRun {
     let occurs = s.occurs_needed || s2.occurs_needed;
     let mut ambiguous = ok != ok2;
     if ok && ok2 && !occurs {
-        let t1 = canon_vars(&ref_tuple(env, &s));
-        let t2 = canon_vars(&ref_tuple(env, &s2));
+        let t1 = canon_vars(&vars.iter().map(|v| s.resolve(v)).collect::<Vec<_>>());
+        let t2 = canon_vars(&vars.iter().map(|v| s2.resolve(v)).collect::<Vec<_>>());
         if !same_vec(&t1, &t2) { ambiguous = true; }
     }
     s.rtl = false;
@@ -384,7 +390,7 @@ pub fn random_pair(r: &mut Rng, vars: &[&'static str]) -> (T, T) {
 // ------------------------------------------------------------------------- C07
 
 /// Compare two engine results for symmetry. `vars` are the engine variables to resolve.
-fn sym_compare(r1: &Option<Ss>, r2: &Option<Ss>, vars: &[Unifiable]) -> Result<(), String> {
+pub fn sym_compare(r1: &Option<Ss>, r2: &Option<Ss>, vars: &[Unifiable]) -> Result<(), String> {
     match (r1, r2) {
         (None, None) => Ok(()),
         (Some(_), None) => Err("A=B succeeds, B=A fails".into()),
@@ -392,8 +398,10 @@ fn sym_compare(r1: &Option<Ss>, r2: &Option<Ss>, vars: &[Unifiable]) -> Result<(
         (Some(s1), Some(s2)) => {
             if let Some(c) = cycle_in(s1) { return Err(format!("cyclic result A=B: {}", c)); }
             if let Some(c) = cycle_in(s2) { return Err(format!("cyclic result B=A: {}", c)); }
-            let t1: Vec<T> = vars.iter().map(|v| from_su(&v.replace_variables(s1))).collect();
-            let t2: Vec<T> = vars.iter().map(|v| from_su(&v.replace_variables(s2))).collect();
+            // a variable is identified by its id alone (the callers may not know its name)
+            let nm = |t: T| t.map_vars(&mut |_, i| T::Var("$v".to_string(), i));
+            let t1: Vec<T> = vars.iter().map(|v| nm(from_su(&v.replace_variables(s1)))).collect();
+            let t2: Vec<T> = vars.iter().map(|v| nm(from_su(&v.replace_variables(s2)))).collect();
             if same_vec(&canon_vars(&t1), &canon_vars(&t2)) { Ok(()) } else {
                 Err(format!("resolved values differ: A=B gives ({}) B=A gives ({})",
                             t1.iter().map(show).collect::<Vec<_>>().join(", "), t2.iter().map(show).collect::<Vec<_>>().join(", ")))
@@ -653,7 +661,7 @@ impl C09 {
     }
 }
 
-fn same_bindings(a: &SubstitutionSet, b: &SubstitutionSet) -> bool {
+pub fn same_bindings(a: &SubstitutionSet, b: &SubstitutionSet) -> bool {
     let n = a.len().max(b.len());
     for i in 0..n {
         let x = a.get(i).and_then(|e| e.as_ref());
